@@ -68,6 +68,7 @@ func objOps(thorough bool) []objOp {
 		add(x+".k1=[K]", false, func(K float64) []*model.N { return st(model.PAsg(id(x), "k1", model.Arr(num(K)))) })
 		add(x+".k1.k2=K", false, func(K float64) []*model.N { return st(model.PAsg(model.Prop(id(x), "k1"), "k2", num(K))) })
 		add(x+".k1[0]=K", false, func(K float64) []*model.N { return st(model.IAsg(model.Prop(id(x), "k1"), num(0), num(K))) })
+		add("list "+x, false, func(K float64) []*model.N { return objListing(x) })
 		add("pokeo("+x+")", false, func(K float64) []*model.N { return st(model.CallN("pokeo", id(x), num(K))) })
 		add("arr=["+x+"]; arr[0].k2=K", false, func(K float64) []*model.N {
 			return []*model.N{model.Block(model.Var("arr", model.Arr(id(x))), model.ExprS(model.PAsg(model.Idx(id("arr"), num(0)), "k2", num(K))))}
@@ -328,6 +329,14 @@ func C12(c *fw.Ctx) {
 					cn2.sb.WriteString(objHist(hist, ops))
 				}
 				key := cn.sb.String() + cn2.sb.String()
+				// a listing may leave something behind in the implementation (a memo, a cursor) that no
+				// observable state shows yet: histories are not merged from their last listing onwards
+				for li := len(hist) - 1; li >= 0; li-- {
+					if strings.HasPrefix(ops[hist[li]].Name, "list ") {
+						key += "|since-listing:" + objHist(hist[li:], ops)
+						break
+					}
+				}
 				if seen[key] {
 					c.Count("merged")
 					continue
